@@ -5,9 +5,13 @@ cd "$(dirname "$0")"
 export GOFLAGS=-mod=mod GOPROXY=off GOSUMDB=off GOTOOLCHAIN=local
 cp /repo/src/diagonal.works/b6/go.sum harness/go.sum
 [ -d tools ] && cp /repo/src/diagonal.works/b6/go.sum tools/go.sum || true
+# T2/T3: regenerate lean/B6/Gen/*.lean from /repo for the properties that use generated definitions
+for f in props/*.json; do
+  if grep -q '"gen"' "$f"; then ./check "$(basename "$f" .json)" --regen-only || echo "setup: regeneration failed for $f (reported per check)"; fi
+done
 # Lean: every module of the library (models, specs, proofs) and every driver executable
 EXES=$(sed -n 's/^name = "\(c[0-9][0-9][a-z0-9]*\)"$/\1/p' lean/lakefile.toml | tr '\n' ' ')
-(cd lean && for t in B6 $EXES; do lake build $t || echo "setup: lean target $t failed (reported per check)"; done)
+(cd lean && (lake build B6 $EXES || for t in B6 $EXES; do lake build $t || echo "setup: lean target $t failed (reported per check)"; done))
 # Go: warm the build cache for every harness command (checks rebuild incrementally from /repo)
 (cd harness && go build -tags verif -o /dev/null ./... ) || echo "setup: some harness commands failed to build (reported per check)"
 [ -d tools ] && (cd tools && go build -o /dev/null ./... ) || true
